@@ -45,6 +45,9 @@ def parseEvent (ws : List String) : Ev :=
       | ["pc", rv, f] => some (.provDone (nat rv) (f == "1"))
       | ["xc", rv, f] => some (.cancelRan (nat rv) (f == "1"))
       | ["c", "abt", rv] => some (.abortCall (nat rv))
+      | ["r", "abt"] => some .abortRet
+      | ["auxdup", _] => some .auxBad
+      | ["auxmiss", _] => some .auxBad
       | ["c", "cls"] => some .closeCall
       | ["cb", r] => some (.cbBegin (nat r))
       | ["ce", r] => some (.peek (nat r))
@@ -117,6 +120,8 @@ def cands (actor : String) (o : Obs) : List Label :=
   | .stopRet => [.stopRet]
   | .freeRet => [.stopRet]
   | .cbEnd => []
+  | .abortRet => []
+  | .auxBad => []
   | .quiet => []
 
 def obsMatch (want : Obs) (got : Obs) : Bool :=
@@ -138,6 +143,8 @@ def acceptLoop (cfg : Cfg) (evs : List Ev) (idx : Nat) (front : List State) (pea
     | none => acceptLoop cfg rest (idx + 1) front peak
     | some .cbEnd => acceptLoop cfg rest (idx + 1) front peak
     | some .quiet => acceptLoop cfg rest (idx + 1) front peak
+    | some .abortRet => acceptLoop cfg rest (idx + 1) front peak
+    | some .auxBad => acceptLoop cfg rest (idx + 1) front peak
     | some o =>
       let cl := closure cfg 20000 front front
       let (nxt, _) := addNew [] (cl.flatMap (visSucc cfg e.actor o))
